@@ -34,6 +34,13 @@ fn payloads() -> Vec<(&'static str, Bytes)> {
     let mut v: Vec<(&'static str, Bytes)> = Vec::new();
     v.push(("empty", Bytes::new()));
     v.push(("one-byte", Bytes::from_static(&[0x80])));
+    // a well-formed batch of no messages, and one of three empty messages
+    v.push(("count-zero", Bytes::from(be(0))));
+    let mut b = be(3);
+    for _ in 0..3 {
+        b.extend(be(0));
+    }
+    v.push(("three-empty-messages", Bytes::from(b)));
     v.push(("count-2^40", Bytes::from(be(1 << 40))));
     v.push(("count-2^61", Bytes::from(be(1 << 61))));
     v.push(("count-max", Bytes::from(be(u64::MAX))));
@@ -165,7 +172,7 @@ pub async fn run(tier: &str, replaying: bool) -> ! {
     finish(
         rep,
         outs,
-        "every cell of decoder {String, Bytes, Bincode struct} x decompression {none, gzip, zlib, zstd, lz4, brotli} x frame kind {BatchMessage, Message}: a raw publisher sends 12 hostile payload classes (absurd counts and lengths in both byte orders, truncated batches, invalid UTF-8, compressed-looking garbage) followed by a valid batch through the real server to a real Subscriber; its task must not panic or hang, and a well-behaved round trip on the same topic must still work",
+        "every cell of decoder {String, Bytes, Bincode struct} x decompression {none, gzip, zlib, zstd, lz4, brotli} x frame kind {BatchMessage, Message}: a raw publisher sends 14 hostile payload classes (incl. a well-formed batch of zero messages and one of empty messages) (absurd counts and lengths in both byte orders, truncated batches, invalid UTF-8, compressed-looking garbage) followed by a valid batch through the real server to a real Subscriber; its task must not panic or hang, and a well-behaved round trip on the same topic must still work",
         "end-to-end representative of each crashing class; the exhaustive input enumeration is engine W's",
         json!({"payload_classes": payloads().iter().map(|p| p.0).collect::<Vec<_>>()}),
         replaying,
